@@ -461,10 +461,10 @@ def _cmp_minmax(eng, st, args, dty, callee, m):
     return z3.If(z3.UGE(a, b), a, b)
 
 
-@summary(r"^<(u8|u16|u32|u64|usize) as Ord>::(min|max)$", "Ord::min/max on unsigned ints")
+@summary(r"^<(u8|u16|u32|u64|usize) as (std::cmp::)?Ord>::(min|max)$", "Ord::min/max on unsigned ints")
 def _ord_minmax(eng, st, args, dty, callee, m):
     a, b = args
-    if m.group(2) == "min":
+    if m.group(3) == "min":
         return z3.If(z3.ULE(a, b), a, b)
     return z3.If(z3.UGE(a, b), a, b)
 
@@ -900,3 +900,28 @@ def _ord_helpers(eng, st, args, dty, callee, m):
         return VEnum(ORDERING, z3.If(o.idx == bv(0, 8), bv(2, 8), z3.If(o.idx == bv(2, 8), bv(0, 8), bv(1, 8))), {0: (), 1: (), 2: ()})
     i = o.idx
     return simp({"is_lt": i == 0, "is_le": i != 2, "is_gt": i == 2, "is_ge": i != 0, "is_eq": i == 1, "is_ne": i != 1}[k])
+
+
+@summary(r"^<&(mut )?(.+) as (std::cmp::)?PartialEq(<.*>)?>::(eq|ne)$", "PartialEq for references: compares the referents with the type's own eq")
+def _ref_eq(eng, st, args, dty, callee, m):
+    inner = m.group(2)
+    a = eng.load(st, args[0])
+    b = eng.load(st, args[1])
+    r = eng.dispatch(st, f"<{inner} as PartialEq>::eq", [a, b], dty, None, None)
+    if r is None:
+        return None
+    s2, v = r
+    _adopt(st, s2)
+    return v if m.group(5) == "eq" else simp(z3.Not(v))
+
+
+@summary(r"^<(.+) as (std::cmp::)?PartialEq(<.*>)?>::ne$", "PartialEq::ne = !eq (default method)")
+def _default_ne(eng, st, args, dty, callee, m):
+    if m.group(1).startswith("&"):
+        return NotImplemented
+    r = eng.dispatch(st, f"<{m.group(1)} as PartialEq>::eq", list(args), dty, None, None)
+    if r is None:
+        return None
+    s2, v = r
+    _adopt(st, s2)
+    return simp(z3.Not(v))
